@@ -1,11 +1,12 @@
 SPECIFICATION MCSpec
 CONSTANTS
   N1 = 3
-  N2 = 1
+  N2 = 0
   NT = 1
   Vals = {"p"}
   Limits = {0, 1, 2, 9}
   NU = 0
+  LookAhead = 2
   MaxOps = 1000000
   KeepHist = FALSE
   EdgeBounds = TRUE
@@ -14,7 +15,7 @@ CONSTANTS
   KF_ScanInvertedRangePanics = FALSE
   KF_ScanOpenEndSkipsBacking = FALSE
 INVARIANTS TypeOK ReadSetSound ReplayReproduces UtxoBalanced
-PROPERTIES ReadYourWrites ScanExact ScanRefusesInverted
+PROPERTIES ReadYourWrites ScanExact ScanRefusesInverted ScanReadsWhatItSaw
 CONSTRAINT Feasible
 VIEW View
 CHECK_DEADLOCK FALSE
